@@ -19,6 +19,21 @@ pub fn label_expr(e: &OpeningHoursExpression, case: &mut Case) -> u32 {
     if e.rules.len() > 100 {
         case.label("more_than_100_rules");
     }
+    let longest = e
+        .rules
+        .iter()
+        .map(|r| {
+            let s = &r.day_selector;
+            r.time_selector.time.len().max(s.year.len()).max(s.monthday.len()).max(s.week.len()).max(s.weekday.len())
+        })
+        .max()
+        .unwrap_or(0);
+    if longest > 8 {
+        case.label("selector_list_of_more_than_8_elements");
+    }
+    if longest > 32 {
+        case.label("selector_list_of_more_than_32_elements");
+    }
     for r in &e.rules {
         let s = &r.day_selector;
         if !s.year.is_empty() {
